@@ -27,6 +27,8 @@ def rand_features(r, n):
             attrs.append(("ID", ["id%d" % r.randrange(0, n + 2)]))
         elif x < 0.7:
             attrs.append(("ID", ["a%d" % i, "b%d" % i]))          # multi-valued id attribute
+        elif x < 0.75:
+            attrs.append(("ID", ["d%d" % i, "d%d" % i]))          # ... also when the values are equal
         if r.random() < 0.5:
             attrs.append(("Name", ["nm%d" % r.randrange(0, 4)] * 1))
         if r.random() < 0.15:
@@ -108,6 +110,7 @@ def ref_keys(feats, spec, strategy):
                         pass
                     v = {"none": None, "empty": "", "const": "fixed", "name": (attr(f, "Name") or [None])[0],
                          "auto": "autoincrement:" + f["ftype"] + "x", "autochr": "autoincrement:" + f["seqid"],
+                         "autocolon": "autoincrement:%s:%s" % (f["seqid"], f["ftype"]),
                          "pos": "%s_%s" % (f["seqid"], f["start"])}[k]
                     if v:
                         key = incr(v[14:]) if v.startswith("autoincrement:") else v
@@ -208,6 +211,28 @@ def run(ctx):
         cmds.append("get " + enc(got[-1])); exp.append("IDONLY " + got[-1]); tags.append(("__getitem__", repr(inp)))
         cmds.append("get " + enc("__absent__")); exp.append("err FeatureNotFoundError")
         tags.append(("__getitem__ absent", repr(inp)))
+        # look-ups stay exact after deletions on the same FeatureDB object (by id and by Feature object)
+        if len(got) >= 2 and i % 2 == 0:
+            victims = r.sample(got, r.randrange(1, min(3, len(got)) + 0))
+            for v in victims:
+                db[v]                                   # looked up before the deletion
+            if r.random() < 0.5:
+                db.delete([db[v] for v in victims], make_backup=False)
+            else:
+                db.delete(list(victims), make_backup=False)
+            for k in got:
+                try:
+                    g = db[k]
+                    if k in victims:
+                        res.oracle_failures.append(("db[key] returned a feature that was deleted (FeatureNotFoundError "
+                                                    "expected)", dict(inp, key=k, deleted=victims)))
+                    elif g.id != k:
+                        res.oracle_failures.append(("db[key] wrong after a deletion", dict(inp, key=k)))
+                except gffutils.FeatureNotFoundError:
+                    if k not in victims:
+                        res.oracle_failures.append(("db[key] lost a feature that was not deleted", dict(inp, key=k, deleted=victims)))
+            cmds.append("delete " + dbside.enc_list(victims)); exp.append("ok"); tags.append(("delete", repr(inp)))
+            cmds.append("get " + enc(victims[0])); exp.append("err FeatureNotFoundError"); tags.append(("__getitem__ after delete", repr(inp)))
         if len(res.samples) < 3:
             res.sample(dict(inp, keys=got))
     # default id_spec by format: GTF default is the dict {gene: gene_id, transcript: transcript_id}
